@@ -71,18 +71,23 @@ func VH_C05_WaitBound() {
 	sm := vhArbitrarySM(M, Rule_Default)
 	verifrt.Assume(sm.IsInit && vhShapeInv(sm))
 	x := verifrt.IntRange("x", 0, M-1)
-	verifrt.Assume(sm.SeatData[x] != nil && sm.SeatData[x].IsIn && sm.SeatData[x].HasChips)
+	// warm-up: the window starts right after a dealt hand (a successful rotation from an
+	// arbitrary shape-invariant state), so the waiting flags are ones a rotation really
+	// produces; x may be busted / absent during the warm-up and is seated-in with chips
+	// from then on
+	verifrt.Assume(sm.RotatePositions() == nil)
+	verifrt.Assume(sm.SeatData[x] != nil && sm.SeatData[x].IsIn)
+	if verifrt.Bool("x.rebuys") {
+		sm.SeatData[x].HasChips = true
+	}
+	verifrt.Assume(sm.SeatData[x].HasChips)
 	dealt := false
-	anyHU := false
 	for h := 0; h < hands; h++ {
 		err := sm.RotatePositions()
 		// only hands that are actually dealt count
 		verifrt.Assume(err == nil)
 		if vhPostActive(sm, x) {
 			dealt = true
-		}
-		if sm.IsHU() {
-			anyHU = true
 		}
 		if h == hands-1 {
 			break
@@ -106,11 +111,6 @@ func VH_C05_WaitBound() {
 			}
 		}
 	}
-	// known finding C05_STARVE: while the hands among the *other* players stay heads-up the
-	// waiting flag is re-evaluated against the arc from the other player's seat to the new big
-	// blind, which can keep covering the waiting player for as many hands as the big blind
-	// needs to travel round the table
-	verifrt.KF("C05_STARVE", anyHU)
 	verifrt.Assert(dealt, "a seated-in player with chips never misses this many hands in a row")
 	verifrt.Reach("end")
 }
